@@ -12,12 +12,10 @@ Arguments N.max : simpl never.
 Arguments N.of_nat : simpl never.
 Arguments N.to_nat : simpl never.
 
-Section Rules.
+Section RulesW.
   Variable lz_enc : list N -> list N -> list N.
-  Variable lz_dec : list N -> list N -> outcome (list N).
   Variable compress_ref : list N -> list N * N.
   Variable compress_pack : list N -> list N.
-  Variable dwm : list N -> N -> outcome (list N).
 
   Notation Inv' := (Inv lz_enc compress_ref compress_pack).
   Notation mkpart' := (mkpart compress_pack).
@@ -229,7 +227,63 @@ Section Rules.
       destruct (add_all' (W_NO_RAW_GROUPS <=? g) b1 l2) as [[[b2 p2] g2]| |]; cbn [obnd seq3 seq_out o_buf o_ref_parts o_delta_parts o_regs app]; reflexivity.
   Qed.
 
-  (* ---------------------------------------------------------------- addressing rules *)
+  (* exactly one reference part per LZ group that received a segment; none otherwise *)
+  Theorem one_ref_part_proof : forall ops st g,
+    run' ops = Ok st ->
+    (16 <= g -> segs_of ops g <> [] -> exists p, gv_ref (view_of (finalize' st) g) = Some [p]) /\
+    (g < 16 \/ segs_of ops g = [] ->
+       gv_ref (view_of (finalize' st) g) = None \/ gv_ref (view_of (finalize' st) g) = Some []).
+  Proof.
+    intros ops st g Hrun. destruct (run_inv _ _ _ _ _ Hrun) as [HG HP]. specialize (HP g).
+    unfold regs_of, get_group in HP.
+    destruct (st g) as [gs|] eqn:Eg.
+    2:{ split.
+        - intros _ Hne. exfalso. apply Hne. cbn in HP. apply Permutation_nil. exact HP.
+        - intros _. left. unfold view_of, finalize. rewrite Eg. reflexivity. }
+    destruct (HG g gs Eg) as [packs [ents HI]].
+    destruct (fin_delta lz_enc compress_ref compress_pack g gs packs ents HI) as [_ [Hfr _]].
+    unfold view_of, finalize. rewrite Eg. cbn [gv_ref]. rewrite Hfr.
+    pose proof (inv_ref _ _ _ _ _ _ _ _ _ _ HI) as Href.
+    split.
+    - intros E16 Hne. assert (Hl : is_lz g = true) by (apply N.leb_le; exact E16). rewrite Hl in Href.
+      destruct (b_reference (g_buf gs)) as [r|].
+      + destruct Href as [_ [Hrp _]]. exists (ref_part' r). rewrite Hrp. reflexivity.
+      + destruct Href as [_ [_ [Hrg _]]]. rewrite Hrg in HP. cbn in HP. exfalso. apply Hne.
+        apply Permutation_nil. exact HP.
+    - intros Hcase. right. destruct (is_lz g) eqn:El.
+      + destruct Hcase as [Hlt|Hnil]; [apply N.leb_le in El; change W_NO_RAW_GROUPS with 16 in El; lia|].
+        destruct (b_reference (g_buf gs)) as [r|].
+        * destruct Href as [_ [_ [s0 [Hs0 _]]]]. rewrite Hnil in HP. apply Permutation_sym in HP.
+          apply Permutation_nil in HP. apply (in_map fst) in Hs0. rewrite HP in Hs0. destruct Hs0.
+        * destruct Href as [_ [Hrp _]]. rewrite Hrp. reflexivity.
+      + destruct Href as [_ [_ Hrp]]. rewrite Hrp. reflexivity.
+  Qed.
+
+End RulesW.
+
+(* ---------------------------------------------------------------- addressing rules *)
+Section Rules.
+  Variable lz_enc : list N -> list N -> list N.
+  Variable lz_dec : list N -> list N -> outcome (list N).
+  Variable compress_ref : list N -> list N * N.
+  Variable compress_pack : list N -> list N.
+  Variable dwm : list N -> N -> outcome (list N).
+
+  Notation Inv' := (Inv lz_enc compress_ref compress_pack).
+  Notation mkpart' := (mkpart compress_pack).
+  Notation ref_part' := (ref_part compress_ref).
+  Notation run' := (run lz_enc compress_ref compress_pack).
+  Notation run_from' := (run_from lz_enc compress_ref compress_pack).
+  Notation gstep' := (gstep lz_enc compress_ref compress_pack).
+  Notation process' := (process lz_enc compress_ref compress_pack).
+  Notation add_one' := (add_one lz_enc compress_pack).
+  Notation add_all' := (add_all lz_enc compress_pack).
+  Notation finalize_group' := (finalize_group compress_pack).
+  Notation finalize' := (finalize compress_pack).
+  Notation GInv' := (GInv lz_enc compress_ref compress_pack).
+  Notation GInvOf' := (GInvOf lz_enc compress_ref compress_pack).
+
+
   Section WithCodecs.
     Variable ref_dom : list N -> Prop.
     Variable lz_dom : list N -> list N -> Prop.
@@ -276,38 +330,6 @@ Section Rules.
       view_of (finalize' st) g = {| gv_ref := Some (g_ref (finalize_group' g gs));
                                      gv_delta := Some (g_delta (finalize_group' g gs)) |}.
     Proof. intros st g gs E. unfold view_of, finalize. rewrite E. reflexivity. Qed.
-
-    (* exactly one reference part per LZ group that received a segment; none otherwise *)
-    Theorem one_ref_part_proof : forall ops st g,
-      run' ops = Ok st ->
-      (16 <= g -> segs_of ops g <> [] -> exists p, gv_ref (view_of (finalize' st) g) = Some [p]) /\
-      (g < 16 \/ segs_of ops g = [] ->
-         gv_ref (view_of (finalize' st) g) = None \/ gv_ref (view_of (finalize' st) g) = Some []).
-    Proof.
-      intros ops st g Hrun. destruct (run_inv _ _ _ _ _ Hrun) as [HG HP]. specialize (HP g).
-      unfold regs_of, get_group in HP.
-      destruct (st g) as [gs|] eqn:Eg.
-      2:{ split.
-          - intros _ Hne. exfalso. apply Hne. cbn in HP. apply Permutation_nil. exact HP.
-          - intros _. left. unfold view_of, finalize. rewrite Eg. reflexivity. }
-      destruct (HG g gs Eg) as [packs [ents HI]].
-      destruct (fin_delta _ _ _ g gs packs ents HI) as [_ [Hfr _]].
-      rewrite (view_final st g gs Eg). cbn [gv_ref]. rewrite Hfr.
-      pose proof (inv_ref _ _ _ _ _ _ _ _ _ _ HI) as Href.
-      split.
-      - intros E16 Hne. assert (Hl : is_lz g = true) by (apply N.leb_le; exact E16). rewrite Hl in Href.
-        destruct (b_reference (g_buf gs)) as [r|].
-        + destruct Href as [_ [Hrp _]]. exists (ref_part' r). rewrite Hrp. reflexivity.
-        + destruct Href as [_ [_ [Hrg _]]]. rewrite Hrg in HP. cbn in HP. exfalso. apply Hne.
-          apply Permutation_nil. exact HP.
-      - intros Hcase. right. destruct (is_lz g) eqn:El.
-        + destruct Hcase as [Hlt|Hnil]; [apply N.leb_le in El; change W_NO_RAW_GROUPS with 16 in El; lia|].
-          destruct (b_reference (g_buf gs)) as [r|].
-          * destruct Href as [_ [_ [s0 [Hs0 _]]]]. rewrite Hnil in HP. apply Permutation_sym in HP.
-            apply Permutation_nil in HP. apply (in_map fst) in Hs0. rewrite HP in Hs0. destruct Hs0.
-          * destruct Href as [_ [Hrp _]]. rewrite Hrp. reflexivity.
-        + destruct Href as [_ [_ Hrp]]. rewrite Hrp. reflexivity.
-    Qed.
 
     (* LZ groups: id 0 is the reference; id i >= 1 is entry (i-1) mod 50 of pack (i-1) div 50 *)
     Theorem delta_addressing_proof : forall ops st g s id,
